@@ -122,37 +122,42 @@ class Mesh:
 
         self.skip_edges = skip_edges
 
-        # first, collect data about patches and merged stuff
-        for entity in self.depot:
-            if isinstance(entity, Operation):
-                operations = [entity]
-            else:
-                operations = entity.operations
+        try:
+            # first, collect data about patches and merged stuff
+            for entity in self.depot:
+                if isinstance(entity, Operation):
+                    operations = [entity]
+                else:
+                    operations = entity.operations
 
-            for operation in operations:
-                if operation in self.deleted:
-                    continue
+                for operation in operations:
+                    if operation in self.deleted:
+                        continue
 
-                vertices = self._add_vertices(operation)
+                    vertices = self._add_vertices(operation)
 
-                block = Block(len(self.block_list.blocks), vertices)
-                if not skip_edges:
-                    for data in self.edge_list.add_from_operation(vertices, operation):
-                        block.add_edge(*data)
+                    block = Block(len(self.block_list.blocks), vertices)
+                    if not skip_edges:
+                        for data in self.edge_list.add_from_operation(vertices, operation):
+                            block.add_edge(*data)
 
-                for axis in get_args(AxisType):
-                    for chop in operation.chops[axis]:
-                        block.chop(axis, chop)
+                    for axis in get_args(AxisType):
+                        for chop in operation.chops[axis]:
+                            block.chop(axis, chop)
 
-                block.cell_zone = operation.cell_zone
+                    block.cell_zone = operation.cell_zone
 
-                self.block_list.add(block)
-                self.assembled_operations.append(operation)
-                self.patch_list.add(vertices, operation)
-                self.face_list.add(vertices, operation)
+                    self.block_list.add(block)
+                    self.assembled_operations.append(operation)
+                    self.patch_list.add(vertices, operation)
+                    self.face_list.add(vertices, operation)
 
-            if entity.geometry is not None:
-                self.add_geometry(entity.geometry)
+                if entity.geometry is not None:
+                    self.add_geometry(entity.geometry)
+        except Exception:
+            # a mesh that is built by half must not pass for an assembled one
+            self.clear()
+            raise
 
     def grade(self) -> None:
         if not self.is_assembled:
